@@ -255,6 +255,8 @@ SPECS["C12"][1].extend([
    ("C12_reachable_states_can_be_saved", "reachable_saver_ok", ""),
 ])
 
+SPECS["C06"][1].insert(-1, ("C06_every_view_of_every_history", "every_view_of_every_history", "over whole histories: every callback delivered anywhere in any in-contract history sees stateId() = its own id (255 for the root) and an isActive() table that is the characteristic vector of a single id - consistent for every k at once"))
+
 if __name__ == "__main__":
     which = sys.argv[1:] or sorted(SPECS)
     ok = True
